@@ -476,3 +476,17 @@ Example C04_example_object_calls :
   ob_checked ob = true /\ ob_closed ob = true /\ fs (PFile Orig FBin) = Absent /\
   fs (PFile (Shank 1 Ap) FBin) = Complete /\ fs (PFile (Shank 1 Ap) FMeta) = Complete.
 Proof. vm_compute. repeat split. Qed.
+
+(* the model's verification is pointwise equality of every shank file with its expected bytes: ANY
+   damage of a shank ap.bin — also one that keeps every sum (values exchanged between channels or
+   frames, +k / -k, two channels exchanged) — is a state that is not Complete, and the check fails *)
+Example C04_example_zero_sum_damage_fails_check :
+  let fs := out_fs (run_once NP24 2 2 (init_fs false) (mkRun TBin (mkO false false false) false None None None)) in
+  fs (PFile (Shank 1 Ap) FBin) = Complete /\
+  step_sem (SVerify 2) (mkR fs false) = Ok (mkR fs true) /\
+  step_sem (SVerify 2) (mkR (upd fs (PFile (Shank 1 Ap) FBin) Partial) false) = Err EAssertion /\
+  out_outcome (run_once NP24 2 2 (init_fs false)
+                 (mkRun TBin (mkO true true false) false None (Some 1%nat) None)) = Raised EAssertion /\
+  out_fs (run_once NP24 2 2 (init_fs false)
+            (mkRun TBin (mkO true true false) false None (Some 1%nat) None)) (PFile Orig FBin) = Complete.
+Proof. vm_compute. repeat split. Qed.
